@@ -343,9 +343,15 @@ func (h h1) Gen(prop, tier string, r *simrt.Rng) (any, simrt.Config) {
 		mode = simrt.Pick(r, "constant", "constant", "staged", "ramp", "gaussian", "users", "users")
 	case "C05":
 		maxSleep = simrt.Pick(r, 0, 30, 300, 3000)
+		if r.Intn(6) == 0 {
+			c.Driver = simrt.Pick(r, "f1", "cli") // the public entry point and the command wrap the run: they must end with it
+		}
 	case "C06":
 		cleanups = simrt.Pick(r, 1, 2, 3)
 		failShare = simrt.Pick(r, 0.1, 0.3, 0.6)
+		if r.Intn(4) == 0 {
+			c.Runs, c.SameScenario = 2, r.Intn(3) != 0 // the same registered scenario run again in one process
+		}
 	case "C07":
 		failShare = simrt.Pick(r, 0.3, 0.6, 1.0)
 		nplans = 3 + r.Intn(30)
@@ -376,6 +382,9 @@ func (h h1) Gen(prop, tier string, r *simrt.Rng) (any, simrt.Config) {
 		c.Interactive = r.Intn(2) == 0
 		c.Verbose = false
 	case "C20":
+		if r.Intn(4) == 0 {
+			c.Runs, c.SameScenario = 2, r.Intn(3) != 0 // the same combined scenario value set up by two runs
+		}
 		nc := 1 + r.Intn(6)
 		for i := 0; i < nc; i++ {
 			cp := ComponentPlan{}
@@ -565,6 +574,10 @@ func (h h1) Gen(prop, tier string, r *simrt.Rng) (any, simrt.Config) {
 		rate := int64(r.Intn(9))
 		c.Flags["rate"] = fmt.Sprintf("%d/%dms", rate, iv)
 		c.TickNs, c.TickRate = iv*int64(time.Millisecond), int(rate)
+	}
+	if c.Driver != "api" && prop == "C05" {
+		c.WaitTimeoutNs = 10*int64(time.Second) + odd(r) // the command's own completion timeout
+		c.Interactive = false
 	}
 	if c.Driver == "f1" {
 		c.CancelAtNs, c.CancelAtStep, c.Runs = 0, 0, 1
